@@ -25,6 +25,19 @@ structure PSOK (steps : List (Step VH)) : Prop where
   fresh : ∀ P, (ps.fresh P).length = 126
   load : ∀ s ∈ steps, s.1 ≠ [] → ∀ Q, Q <+: specPage s.1 →
     ∃ pg o, ps.get Q = some (pg, o) ∧ pg.nodes.length = 126
+  /-- the leaf counters of the reconstructed pages are consistent (`OriginsOK`, what the oracle `C02 recon counters` checks) -/
+  origins : OriginsOK ps
+  /-- no page of the page set lies below a terminal that is replaced (pages exist only below internal nodes) -/
+  clean : ∀ s ∈ steps, s.2.isSome = true → ∀ q, s.1 <+: q → q.length % 6 = 0 → ps.get (sextetsOf q) = none
+
+/-- below an absent page the page set holds no weight -/
+theorem fullSum_zero_of_absent (hO : OriginsOK ps) (P : PageId) (hget : ps.get P = none) : fullSum ps P = 0 := by
+  have := hO P
+  unfold originOK at this
+  rw [hget] at this
+  simp only [decide_eq_true_eq] at this
+  have hcl : oldCl ps P = 0 := by unfold oldCl; rw [hget]
+  omega
 
 theorem pathsIn_of_psok {steps : List (Step VH)} (hps : PSOK ps steps) :
     PathsIn (Mat ps) steps := by
@@ -41,7 +54,7 @@ theorem loadable_of_psok (root : Node) {steps : List (Step VH)} (hps : PSOK ps s
     (hst : ∀ q, q ≠ [] → specPage q = Q → st q = flatStore H ps root q) (Z : Prop) (hz : ¬ Z) :
     Loadable H ps Z st Q := by
   obtain ⟨pg, o, hget, hl⟩ := hps.load s hs hne Q hQ
-  refine ⟨pg, o, hget, Or.inl hz, hl, ?_⟩
+  refine ⟨pg, o, hget, Or.inl hz, hl, ?_, hps.origins Q⟩
   intro q hq _ hqp
   rw [hst q hq hqp]
   unfold flatStore
@@ -64,10 +77,11 @@ structure RunInv (D : Path → Prop) (pp : Option PageId) (root : Node) (S S' : 
 theorem runInv_prologue (hs : H.Sound) {D : Path → Prop} {pp : Option PageId} {root : Node} {S S' : List (Key × VH)}
     {done todo : List (Step VH)} {s : Step VH}
     (hso : ScriptOK S S' (done ++ s :: todo)) {w : Walker Node} {a : TW Node}
-    (h : RunInv H ps D pp root S S' done (s :: todo) w a) :
-    (∃ w1, w.advancePrologue H (posOfPath s.1) = .ok w1 ∧
-      Sim H ps w1 (a.compactUp H (cfgOf H ps pp) (some s.1)) ∧ Same w w1) ∨
-    w.advancePrologue H (posOfPath s.1) = .panic GUARD := by
+    (h : RunInv H ps D pp root S S' done (s :: todo) w a)
+    (Lfin : List (PageId × Store Node)) (hnd : (Lfin.map (·.1)).Nodup)
+    (hpreC : (a.compactUp H (cfgOf H ps pp) (some s.1)).log <+: Lfin) :
+    ∃ w1, w.advancePrologue H (posOfPath s.1) = .ok w1 ∧
+      Sim H ps w1 (a.compactUp H (cfgOf H ps pp) (some s.1)) ∧ Same w w1 := by
   have hlen := hso.len s (by simp)
   obtain ⟨hpw, hpp⟩ := posOfPath_wf s.1 hlen
   unfold Walker.advancePrologue
@@ -85,7 +99,7 @@ theorem runInv_prologue (hs : H.Sound) {D : Path → Prop} {pp : Option PageId} 
         rw [hlp] at hp; cases hp
     rcases h.tw with ⟨hidle, _⟩ | ⟨_, hne⟩
     · rw [tw_compactUp_idle H _ a _ hidle.pos]
-      exact Or.inl ⟨w, rfl, h.sim, Same.rfl' _⟩
+      exact ⟨w, rfl, h.sim, Same.rfl' _⟩
     · exact absurd hdone hne
   | some lp =>
     simp only
@@ -115,12 +129,12 @@ theorem runInv_prologue (hs : H.Sound) {D : Path → Prop} {pp : Option PageId} 
         omega
       · obtain ⟨p, w', r, hc, ht'⟩ := hinv.todoP s (List.mem_cons_self ..)
         rw [hc, ht', sharedBits_leftOf]
-        simp) [] (fun hr => absurd hr (by rw [h.norec]; simp))
-    rcases hsc with ⟨w1, hw1, hs1, hsame1⟩ | ⟨_, hp⟩
-    · rw [h.par] at hs1
-      simp only [Option.map_some, hpp] at hs1
-      exact Or.inl ⟨w1, hw1, hs1, hsame1⟩
-    · exact Or.inr hp
+        simp) Lfin hnd ⟨fun hr => absurd hr (by rw [h.norec]; simp), by
+          rw [h.par]; simp only [Option.map_some, hpp]; exact hpreC⟩
+    obtain ⟨w1, hw1, hs1, hsame1⟩ := hsc
+    rw [h.par] at hs1
+    simp only [Option.map_some, hpp] at hs1
+    exact ⟨w1, hw1, hs1, hsame1⟩
 
 /-- one call of the script keeps the invariant and does not reach a panic site -/
 theorem runInv_step (hs : H.Sound) {D : Path → Prop} {pp : Option PageId} {root : Node} {S S' : List (Key × VH)}
@@ -129,20 +143,24 @@ theorem runInv_step (hs : H.Sound) {D : Path → Prop} {pp : Option PageId} {roo
     (hps : PSOK ps (done ++ s :: todo)) (hrep : Rep0 H D S (flatStore H ps root))
     (hDp : PathsIn D (done ++ s :: todo)) (hD0 : D []) (hscp : InScope pp (done ++ s :: todo))
     {w : Walker Node} {a : TW Node}
-    (h : RunInv H ps D pp root S S' done (s :: todo) w a) :
-    (∃ w', w.stepM H ps s = .ok w' ∧
-      RunInv H ps D pp root S S' (done ++ [s]) todo w' (a.step H (cfgOf H ps pp) s)) ∨
-    w.stepM H ps s = .panic GUARD := by
+    (h : RunInv H ps D pp root S S' done (s :: todo) w a)
+    (Lfin : List (PageId × Store Node)) (hnd : (Lfin.map (·.1)).Nodup)
+    (hpre : (a.step H (cfgOf H ps pp) s).log <+: Lfin) :
+    ∃ w', w.stepM H ps s = .ok w' ∧
+      RunInv H ps D pp root S S' (done ++ [s]) todo w' (a.step H (cfgOf H ps pp) s) := by
   have hlen := hso.len s (by simp)
   have hsmem : s ∈ done ++ s :: todo := by simp
   obtain ⟨hpw, hpp⟩ := posOfPath_wf s.1 hlen
-  rcases runInv_prologue H ps hs hso h with ⟨w1, hw1, hs1, hsame1⟩ | hp
-  case inr =>
-    right
-    unfold Walker.stepM
+  have hpreC : (a.compactUp H (cfgOf H ps pp) (some s.1)).log <+: Lfin := by
+    refine List.IsPrefix.trans ?_ hpre
+    unfold TW.step
     cases s.2 with
-    | none => simp only; unfold Walker.advance; rw [hp]
-    | some ops => simp only; unfold Walker.advanceAndReplace; rw [hp]
+    | none => exact List.prefix_refl _
+    | some ops =>
+      simp only
+      unfold TW.advanceAndReplace
+      exact tw_replaceTerminal_log_prefix H _ ({ a.compactUp H (cfgOf H ps pp) (some s.1) with pos := s.1 } : TW Node) ops
+  obtain ⟨w1, hw1, hs1, hsame1⟩ := runInv_prologue H ps hs hso h Lfin hnd hpreC
   have hpar1 : w1.parentPage = pp := hsame1.1.trans h.par
   have hnr1 : w1.reconstruction = false := hsame1.2.2.2.2.trans h.norec
   -- with a parent page the terminal is not the root position
@@ -192,7 +210,7 @@ theorem runInv_step (hs : H.Sound) {D : Path → Prop} {pp : Option PageId} {roo
     simp only
     rw [hass]
     simp only
-    refine Or.inl ⟨_, rfl, ?_⟩
+    refine ⟨_, rfl, ?_⟩
     have hstep : a.step H (cfgOf H ps pp) s = a.compactUp H (cfgOf H ps pp) (some s.1) := by
       unfold TW.step; rw [hop]; rfl
     refine ⟨?_, hnr1, hpar1, ?_, hlast' _ rfl⟩
@@ -323,6 +341,10 @@ theorem runInv_step (hs : H.Sound) {D : Path → Prop} {pp : Option PageId} {roo
     obtain ⟨w2, hw2, hs2, hpar2, hlast2, hnr2⟩ := hbuild
     rw [hw2]
     simp only
+    have hstep : a.step H (cfgOf H ps pp) s =
+        ({ a1 with pos := s.1 } : TW Node).replaceTerminal H (cfgOf H ps pp) (sub S' s.1) := by
+      unfold TW.step; rw [hop]; simp only
+      unfold TW.advanceAndReplace; rw [hops, ha1]
     -- `replace_terminal`
     have hMat : D s.1 := by
       by_cases hne : s.1 = []
@@ -344,22 +366,21 @@ theorem runInv_step (hs : H.Sound) {D : Path → Prop} {pp : Option PageId} {roo
         show H.kind (a1.store s.1) ≠ .internal
         rw [hF3]
         exact terminal_not_internal H hs hS hrep s.1 hlen hMat (hso.term s (by simp)))
-      [] (fun hr => absurd hr (by
+      (by
+        intro q hq h6 _
+        show fullSum ps (sextetsOf q) = 0
+        exact fullSum_zero_of_absent ps hps.origins _
+          (hps.clean s hsmem (by rw [hop]; rfl) q hq h6))
+      Lfin hnd ⟨fun hr => absurd hr (by
         have : w2.reconstruction = false := hnr2
-        rw [this]; simp))
+        rw [this]; simp), by
+          show (({ a1 with pos := s.1 } : TW Node).replaceTerminal H (cfgOf H ps w2.parentPage) (sub S' s.1)).log <+: Lfin
+          rw [hpar2, ← hstep]; exact hpre⟩
     rw [hops]
-    rcases hrt with ⟨w3, hw3, hs3, hsame3, _⟩ | ⟨_, hp3⟩
-    case inr =>
-      right
-      have hp3' : w2.replaceTerminal H ps (sub S' s.1) = .panic GUARD := hp3
-      rw [hp3']
+    obtain ⟨w3, hw3, hs3, hsame3, _⟩ := hrt
     have hw3' : w2.replaceTerminal H ps (sub S' s.1) = .ok w3 := hw3
     rw [hw3']
-    refine Or.inl ⟨w3, rfl, ?_⟩
-    have hstep : a.step H (cfgOf H ps pp) s =
-        ({ a1 with pos := s.1 } : TW Node).replaceTerminal H (cfgOf H ps pp) (sub S' s.1) := by
-      unfold TW.step; rw [hop]; simp only
-      unfold TW.advanceAndReplace; rw [hops, ha1]
+    refine ⟨w3, rfl, ?_⟩
     refine ⟨?_, hsame3.2.2.2.2.trans hnr2, hsame3.1.trans hpar2, ?_, hlast' _ (hsame3.2.1.trans hlast2)⟩
     · rw [hstep]
       rw [hpar2] at hs3
